@@ -359,7 +359,11 @@ func (seg *Segmenter) splitByScript() {
 			} else if currentInput.Script == language.Common {
 				// update the pair stack to attribute the resolved script
 				for i := range seg.delimStack {
-					seg.delimStack[i].script = rScript
+					// (only the delimiters still waiting for a script : the ones
+					// opened in a previous run have already been resolved)
+					if seg.delimStack[i].script == language.Common {
+						seg.delimStack[i].script = rScript
+					}
 				}
 				// set the resolved script to the current run,
 				// but do NOT create a new run
